@@ -87,7 +87,7 @@ func c01(c *Ctx) {
 			if g == nil {
 				continue
 			}
-			o := TMOpts{ArrowPerRule: true, Optimize: c.Rng.Intn(2) == 0, Minimize: c.Rng.Intn(3) == 0, Markers: c.Rng.Intn(3) == 0}
+			o := TMOpts{ArrowPerRule: true, Optimize: c.Rng.Intn(2) == 0, Minimize: c.Rng.Intn(3) == 0, Markers: c.Rng.Intn(2) == 0}
 			o.DefaultReduce = o.Optimize && c.Rng.Intn(2) == 0
 			name := fmt.Sprintf("g%d", done+k)
 			gp := compileTM(name, g.TM(name, o), o)
